@@ -844,17 +844,18 @@ func finalizeRelations(
 				}
 			}
 
-			if !otherColDefinition.HasValue() {
-				// If the other collection is not found here we skip this field.  Whilst this almost certainly means the SDL
-				// is invalid, validating anything beyond SDL syntax is not the responsibility of this package.
-				continue
+			// If the other collection is not found here it may have been added by an earlier SDL, in which case the
+			// relation can only be defined on this side.  Whether it exists at all is validated later, validating
+			// anything beyond SDL syntax is not the responsibility of this package.
+			var otherColFieldDescription client.CollectionFieldDescription
+			var hasOtherColFieldDescription bool
+			if otherColDefinition.HasValue() {
+				otherColFieldDescription, hasOtherColFieldDescription = otherColDefinition.Value().Version.GetFieldByRelation(
+					field.RelationName.Value(),
+					result.Definition.GetName(),
+					field.Name,
+				)
 			}
-
-			otherColFieldDescription, hasOtherColFieldDescription := otherColDefinition.Value().Version.GetFieldByRelation(
-				field.RelationName.Value(),
-				result.Definition.GetName(),
-				field.Name,
-			)
 
 			if !hasOtherColFieldDescription || otherColFieldDescription.Kind.Value().IsArray() {
 				if _, exists := result.Definition.Schema.GetFieldByName(field.Name); !exists {
@@ -872,7 +873,7 @@ func finalizeRelations(
 				}
 			}
 
-			if !otherColDefinition.Value().Version.IsEmbeddedOnly {
+			if !otherColDefinition.HasValue() || !otherColDefinition.Value().Version.IsEmbeddedOnly {
 				var schemaFieldIndex int
 				var schemaFieldExists bool
 				for i, schemaField := range result.Definition.Schema.Fields {
